@@ -2,6 +2,7 @@
 from __future__ import annotations
 
 from kfv.core import Ctx
+from kfv.rules import memo_rules as MEMO
 from kfv.rules import coh_rules as C
 from kfv.rules import precond_rules as R
 from kfv.rules import tensor_rules as TR
@@ -27,3 +28,4 @@ def run(ctx: Ctx) -> None:
     ctx.do(TR.rule_tt_comm)
     ctx.do(R.rule_damparg, [f'{R.BP}.step', f'{R.BP}.load_state_dict'])
     ctx.do(C.rule_enum_compute)
+    ctx.do(MEMO.rule_memo)
